@@ -581,7 +581,9 @@ def check_fmt(pid, tier, seed, replay=None):
             "Format must terminate without error; " +
             ("ReadFile(Format(x)) must be accepted and equal ReadFile(x) with doc comments erased" if pid == "C16" else "Format(Format(x)) must equal Format(x) byte for byte") +
             "; the extracted formatter model's output is compared byte for byte on every text; distinct = distinct texts")
-    run, broken = base_run(pid, tier, seed, rule, "props/%s.v" % pid, ["%s_partial" % pid])
+    run, broken = base_run(pid, tier, seed, rule, "props/%s.v" % pid, ["%s_refuted" % pid])
+    run.cov["explanation"] = ("the full statement is false of the code and of the faithful model: the theorem is its refutation (%s_refuted, coq/props/%s.v) with the committed known findings as "
+                              "witnesses, each replayed on the implementation by this run; every other accepted text is decided by the differential run against the formatter model" % (pid, pid))
     rng = SplitMix64(seed).fork("FMT")
     n = 700 if tier == "thorough" else 180
     texts = []
@@ -591,7 +593,9 @@ def check_fmt(pid, tier, seed, replay=None):
             if rng.below(4) == 0:
                 t = t.replace("array[int32[]]", "int32[][]").replace("array[string[]]", "string[][]")
             texts.append((items, t))
-    for extra in ["struct A { int32[][] grid; }\n", "struct A { array[array[int32]] g; map[string, map[int32, string[]]] m; }\n"]:
+    # the first four are the witnesses of the refutation theorems (front/FmtFacts.v)
+    for extra in ["enum E : uint8 { A = 1; }\n", "import \"a.bop\"\nstruct A { int32 a; }\n", "[flags]\nenum F { A = 1; B = A | 2; }\n",
+                  "struct A { int32[][] grid; }\n", "struct A { array[array[int32]] g; map[string, map[int32, string[]]] m; }\n"]:
         texts.append(([], extra))
     for name, b in testdata_files():
         texts.append((None, b.decode("latin1")))
